@@ -225,6 +225,14 @@ func (m *Module) Generate(bin string) {
 			}
 		}
 		cr.Generated = cr.Gen.Exit == 0 && !cr.Gen.TimedOut
+		// record the run for replays
+		var written []string
+		for p := range cr.Written {
+			written = append(written, p)
+		}
+		sort.Strings(written)
+		rec, _ := json.MarshalIndent(map[string]any{"case": cr.Case.Name, "args": args, "cli": cr.Case.Features["cli"], "exit": cr.Gen.Exit, "stderr": cr.Gen.Stderr, "written": written, "glue_pkgs": cr.Case.GluePkgs, "nconvs": len(cr.Case.Convs)}, "", " ")
+		os.WriteFile(filepath.Join(cr.Dir, "verif-run.json"), rec, 0o644)
 	})
 }
 
